@@ -102,6 +102,8 @@ def main : IO Unit := do
     (fun x =>
       let c := fun i => compare (2 * (x.2.2.1 + i)) (2 * (x.2.2.1 + x.2.1) - 1 + (x.2.1 % 2))
       some (if x.2.2.2 then findOrdered c x.1 else findLinear c x.1))
+  let winIn : List (Nat × Nat × Nat) := [0, 3, 7].flatMap fun o => [0, 1, 4].flatMap fun c => (List.range 12).map fun k => (o, c, k)
+  cmp1 "rangeGetEntry" winIn (fun x => Generated.rangeGetEntry x.1 x.2.1 x.2.2) (fun x => if x.2.2 < x.2.1 then some (x.1 + x.2.2) else none)
   let regs : List (Nat × Nat × Nat × Nat) := small.flatMap fun b => [0, 7, 300].flatMap fun len =>
     [0, 1, 5].flatMap fun o => [0, 1, 2].map fun s => (b, b + len, o, s)
   cmp1 "regionCutRel" regs (fun x => Generated.regionCutRel x.1 x.2.1 x.2.2.1 x.2.2.2)
